@@ -3115,6 +3115,15 @@ class _Spelling(ast.NodeTransformer):
             return ast.copy_location(ast.Compare(left=n.comparators[0], ops=[flip[type(n.ops[0])]()], comparators=[n.left]), n)     # 0 > x  ->  x < 0
         return n
 
+    def visit_UnaryOp(self, n):
+        self.generic_visit(n)
+        # not (x is None) -> x is not None;  not (a in b) -> a not in b   (identity and membership: exact)
+        flip = {ast.Is: ast.IsNot, ast.IsNot: ast.Is, ast.In: ast.NotIn, ast.NotIn: ast.In}
+        if isinstance(n.op, ast.Not) and isinstance(n.operand, ast.Compare) and len(n.operand.ops) == 1 and type(n.operand.ops[0]) in flip:
+            c = n.operand
+            return ast.copy_location(ast.Compare(left=c.left, ops=[flip[type(c.ops[0])]()], comparators=c.comparators), n)
+        return n
+
     def visit_Try(self, n):
         self.in_try += 1
         self.generic_visit(n)
